@@ -47,7 +47,12 @@ fn lib_scenario(sc: &E2Scenario) {
                         Ok(m) => (true, m.to_phrase()),
                         Err(e) => (false, format!("{e}")),
                     };
-                    world::note_lib_result(LibResult { task: t + 1, call: c, ok, text });
+                    world::note_lib_result(LibResult {
+                        task: t + 1,
+                        call: c,
+                        ok,
+                        text,
+                    });
                 }
             })
         })
@@ -63,9 +68,10 @@ fn main() {
         eprintln!("usage: threadsim <scenario.json> <history.json>");
         std::process::exit(78);
     }
-    let sc: E2Scenario = match std::fs::read(&args[1]).map_err(|e| e.to_string()).and_then(|b| {
-        serde_json::from_slice(&b).map_err(|e| e.to_string())
-    }) {
+    let sc: E2Scenario = match std::fs::read(&args[1])
+        .map_err(|e| e.to_string())
+        .and_then(|b| serde_json::from_slice(&b).map_err(|e| e.to_string()))
+    {
         Ok(s) => s,
         Err(e) => {
             eprintln!("threadsim: bad scenario: {e}");
@@ -81,7 +87,9 @@ fn main() {
     // Argument parsing has no scheduling point; it happens where main.rs does
     // it, before any thread exists. (main.rs itself is the one stub of E2.)
     let opts = if sc.lib_tasks == 0 {
-        match catch_unwind(AssertUnwindSafe(|| cmd::new::Options::try_parse_from(&sc.argv))) {
+        match catch_unwind(AssertUnwindSafe(|| {
+            cmd::new::Options::try_parse_from(&sc.argv)
+        })) {
             Ok(Ok(o)) => Some(o),
             Ok(Err(e)) => {
                 use clap::error::ErrorKind::*;
@@ -99,7 +107,11 @@ fn main() {
             }
             Err(p) => {
                 let msg = payload_string(&*p);
-                world::finish("exit", Some(101), &format!("panic while parsing arguments: {msg}"));
+                world::finish(
+                    "exit",
+                    Some(101),
+                    &format!("panic while parsing arguments: {msg}"),
+                );
             }
         }
     } else {
@@ -144,7 +156,11 @@ fn main() {
             if msg.starts_with("deadlock!") {
                 world::finish("deadlock", None, &msg)
             } else {
-                world::finish("harness", None, &format!("panic escaped the execution: {msg}"))
+                world::finish(
+                    "harness",
+                    None,
+                    &format!("panic escaped the execution: {msg}"),
+                )
             }
         }
         Ok(_) => match world::stop_reason() {
